@@ -161,6 +161,24 @@ class Ctx(object):
                     os.remove(p)
 
 
+def safe_run_case(mod, case, ctx):
+    """run_case, but an exception that escapes from a direct (unguarded) call into the library on an in-domain case is a
+    violation of the property, not an error of the machinery: classify by the innermost repository / harness frame."""
+    try:
+        return mod.run_case(case, ctx)
+    except HarnessError:
+        raise
+    except (KeyboardInterrupt, MemoryError):
+        raise
+    except BaseException as exc:
+        who, where = classify_exception(exc)
+        if who != 'setigen':
+            raise
+        obs = Obs()
+        obs.fail(f'raises:unguarded:{where}', repr(exc)[:300])
+        return obs
+
+
 def canon(case):
     return json.dumps(case, sort_keys=True, separators=(',', ':'), default=_json_default)
 
@@ -314,7 +332,7 @@ def shard_main(args):
                     with open(os.path.join(rdir, fn)) as f:
                         doc = json.load(f)
                     case = doc['case'] if 'case' in doc else doc
-                    obs = mod.run_case(case, ctx)
+                    obs = safe_run_case(mod, case, ctx)
                     stats.record(mod, known, case, obs)
                     stats.counters['regression_cases'] += 1
                     ctx.clean()
@@ -324,7 +342,7 @@ def shard_main(args):
             for i, case in enumerate(enum(tier)):
                 if i % nshards != shard:
                     continue
-                obs = mod.run_case(case, ctx)
+                obs = safe_run_case(mod, case, ctx)
                 stats.record(mod, known, case, obs)
                 ctx.clean()
         if n_examples > 0:
@@ -340,7 +358,7 @@ def shard_main(args):
             @hypothesis.seed(hseed)
             @given(strat)
             def collect(case):
-                obs = mod.run_case(case, ctx)
+                obs = safe_run_case(mod, case, ctx)
                 stats.record(mod, known, case, obs)
                 ctx.clean()
             collect()
@@ -359,7 +377,7 @@ def shard_main(args):
                 def shrink(case):
                     if time.time() - t0 > shrink_s:
                         return
-                    obs = mod.run_case(case, ctx)
+                    obs = safe_run_case(mod, case, ctx)
                     ctx.clean()
                     for f, d in obs.violations:
                         if f == facet and match_known(mod, known, f, case) is None:
@@ -414,7 +432,7 @@ def write_replay(mod, facet, bucket, seed, tier):
 def run_single(mod, case, tier='quick'):
     tmpdir = tempfile.mkdtemp(prefix=f'vp-{mod.PROP_ID}-replay-')
     try:
-        return mod.run_case(case, Ctx(tmpdir, tier))
+        return safe_run_case(mod, case, Ctx(tmpdir, tier))
     finally:
         shutil.rmtree(tmpdir, ignore_errors=True)
 
